@@ -158,6 +158,11 @@ impl Check for C12 {
 		let ma_period = cfg.map_or(0, cfgmut::max_period_in) as usize;
 		let mut m_vol = 0.0f64;
 		let mut m_src = 0.0f64;
+		// TSI method: true double-smoothed absolute momentum (the denominator of the ratio) in f64, and the largest
+		// momentum of the history; an EMA step `(x - prev)·α + prev` rounds at the scale of `prev`, which for α = 1
+		// (period 1) is not contracted, so the ratio's allowance is that of the other residue quotients (hist / den)
+		let tsi_alpha = if let sut::Params::Two(a, b) = &case.params { (2.0 / (*a as f64 + 1.0), 2.0 / (*b as f64 + 1.0)) } else { (1.0, 1.0) };
+		let (mut tsi_e1, mut tsi_e2, mut tsi_mom, mut tsi_prev) = (0.0f64, 0.0f64, 0.0f64, case.stream.first().map_or(0.0, |x| x.val()));
 		for (t, o) in a.iter().enumerate() {
 			stats.log(o.hash());
 			let cin = case.stream[t].candle_f64();
@@ -182,7 +187,16 @@ impl Check for C12 {
 			let den_moves = |w: usize| -> f64 { win(w).map(|j| if j == 0 { 0.0 } else { (srcv[j] - srcv[j - 1]).abs() }).sum() };
 			let den_vol = |w: usize| -> f64 { win(w).map(|j| case.stream[j].candle_f64()[4]).sum() };
 			let scaled = |hist: f64, den: f64| -> f64 { if den > 0.0 { tol_r * (hist / den).max(1.0) } else { tol_r } };
+			if name == "TSI" {
+				let x = case.stream[t].val();
+				let mom = (x - tsi_prev).abs();
+				tsi_prev = x;
+				tsi_mom = tsi_mom.max(mom);
+				tsi_e1 += (mom - tsi_e1) * tsi_alpha.0;
+				tsi_e2 += (tsi_e1 - tsi_e2) * tsi_alpha.1;
+			}
 			let tol_r = match name {
+				"TSI" => scaled(2.0 * tsi_mom, tsi_e2),
 				"ChandeMomentumOscillator" => scaled(2.0 * m_src, den_moves(period)),
 				"RelativeStrengthIndex" => scaled(2.0 * m_src, den_moves(ma_period)),
 				"MoneyFlowIndex" => scaled(m_vol, den_vol(period)),
